@@ -152,8 +152,8 @@ Requests ==
 RECURSIVE AnySeq(_)
 AnySeq(S) == IF S = {} THEN <<>> ELSE LET x == CHOOSE y \in S : TRUE IN <<x>> \o AnySeq(S \ {x})
 
-Probes(s) == [gets  |-> IF Mode = "c15" THEN AnySeq(ProbeGets(s)) ELSE <<>>,
-              lists |-> IF Mode = "c15" THEN AnySeq(ProbeLists(s)) ELSE <<>>]
+Probes(s) == [gets  |-> IF Mode = "c15" /\ Export # "none" THEN AnySeq(ProbeGets(s)) ELSE <<>>,
+              lists |-> IF Mode = "c15" /\ Export # "none" THEN AnySeq(ProbeLists(s)) ELSE <<>>]
 
 \* one recorded step: the call, the demanded results and the demanded observable state after it
 WriteRec(s, req, off, ts) ==
